@@ -11,12 +11,16 @@ from .. import unphase_vcf as uv
 RULE = ("main stream: generated VCF files (0-4 samples, 1-8 records, 1-2 contigs; per call ploidy 1-6, alleles 0..#ALT "
         "or '.', all-'/' / all-'|' / mixed separators, '.', './.', '0/.', '.|1', '0|1|.'; records without GT, FORMAT '.'; "
         "HP/PS/PQ present or not, PS typed Integer or String, PQ Integer or Float, other FORMAT fields DP GQ AD FT XF with "
-        "missing values and dropped trailing fields; 0-3 ALT alleles; ##phasing line; an INFO field called PS) in three "
+        "missing values and dropped trailing fields; 0-3 ALT alleles; an INFO field called PS; header with the FORMAT "
+        "definitions in random order, interleaved with INFO/FILTER/contig lines, and 0-3 ##phasing lines at random "
+        "places, preferably directly before the HP/PS/PQ definitions, also two in a row) in three "
         "profiles (tame: only shapes the current code survives; mild; wild), each run through `whatshap unphase` twice; "
         "exhaustive stream: every single-sample genotype over {0,1,.} up to ploidy 4 (quick) / 6 (thorough) with '/' and "
         "'|', each with FORMAT tag sets chosen independently of the separator (none, PS, HP, PQ, DP, PS+PQ, DP+PS+HP+PQ: all "
         "of them up to ploidy 3, two per genotype above), tag-only records without GT, and a corpus of records mixing "
-        "phased / unphased / descending samples; phase stream: synthetic reads (harness.synth) phased by `whatshap phase` (PS or HP tag, 1-3 samples, "
+        "phased / unphased / descending samples, each under 9 header layouts (##phasing line(s) directly before the PS / "
+        "HP / PQ definition, two in a row, before each, at the end, none, reversed header); malformed stream: files "
+        "whose records use HP/PS/PQ without a header definition (exception class only); phase stream: synthetic reads (harness.synth) phased by `whatshap phase` (PS or HP tag, 1-3 samples, "
         "unphased / 1/0-ordered / pre-phased / partially missing input), then unphase of input and output, and a second "
         "phase+unphase round. A case is non-trivial if the input carries phase information (a '|' or an HP/PS/PQ "
         "value); distinct = distinct input text.")
@@ -29,7 +33,11 @@ TRUSTED = [
 ]
 ASSUMPTIONS = [
     "input is a well-formed VCF 4.2 text file: every FORMAT/INFO/FILTER/contig used is declared, GT is the first "
-    "FORMAT key when present; at most one ##phasing header line",
+    "FORMAT key when present (files using HP/PS/PQ without declaring them go to a malformed stream compared on the "
+    "exception class only)",
+    "`##phasing` header lines are header metadata: cleanliness and idempotence are judged on genotypes, HP/PS/PQ values, "
+    "HP/PS/PQ header definitions and all other header lines; the code as it is removes only the first `##phasing` line "
+    "per application (proved: C13_header_phasing_lines / C13_header_idempotent_refuted; counted in the evidence)",
     "positive theorems (total, clean, frames, idempotent, after-phase, histories) are proved for the repaired record "
     "step `unphase_fixed` and, under the guard 'no exception', for the model of the current code",
 ]
@@ -41,7 +49,9 @@ Open Scope Z_scope.
 """
 
 CHECKS = {"total": "l1_total", "clean": "l1_clean", "frames": "l1_frames", "idem": "l1_idem",
+          "hclean": "l1_header_clean", "hidem": "l1_header_idem", "obs_hstrict": "obs_header_idem_strict",
           "L2rec": "l2_records", "L2hdr": "l2_header", "L2fix": "l2_fixed_prefix", "L2recfixed": "l2_records_fixed"}
+MCHECKS = {"cur": "l2_mal_cur", "fixed": "l2_mal_fixed"}
 PCHECKS = {"after": "l1_after_phase", "L2rel": "l2_phase_rel", "L2model": "l2_after_phase"}
 
 KNOWN_EXC = ("IndexError", "TypeError", "KeyError")
@@ -99,20 +109,26 @@ def has_phase_info(spec):
 
 
 def crash_site(stderr):
-    """the statement of whatshap/cli/unphase.py the traceback passes through last ('write' for writer.write)"""
+    """where in whatshap/cli/unphase.py the traceback ends: 'write' (writer.write), 'sorted', 'header' (inside
+    unphase_header), 'record-loop' (another statement of run_unphase) or the function name"""
     site = None
     lines = stderr.splitlines()
     for i, l in enumerate(lines):
-        if "cli/unphase.py" in l and i + 1 < len(lines):
-            code = lines[i + 1].strip()
-            if "writer.write" in code:
+        m = re.search(r'cli/unphase\.py", line \d+, in (\w+)', l)
+        if m and i + 1 < len(lines):
+            func, code = m.group(1), lines[i + 1].strip()
+            if func == "unphase_header":
+                site = "header"
+            elif "writer.write" in code:
                 site = "write"
             elif "sorted" in code:
                 site = "sorted"
-            elif "main(" in code or "run_unphase(" in code:
-                site = site
-            else:
+            elif func == "run_unphase":
                 site = "record-loop"
+            elif func in ("main", "<module>"):
+                pass
+            else:
+                site = func
     return site or "unknown"
 
 
@@ -131,6 +147,10 @@ def line_signature(fmt, gts, exc, site):
         if tags and not any("|" in g and "/" not in g for g in gts):
             return "unphase:tag-with-partly-phased-gt-crash"      # 0/1|1: pysam's call.phased is False
         return f"unphase:write-crash-other:{exc}"
+    if site == "header":
+        return f"unphase:header-crash:{exc}"
+    if site == "unknown":
+        return f"unphase:crash-other:{exc}:outside-run_unphase"
     sig = None
     if "GT" not in fmt:
         sig = "unphase:no-gt-crash"
@@ -185,6 +205,8 @@ class State:
         self.l2_cases = 0
         self.l2_fail_cur = []
         self.l2_fail_fixed = []
+        self.obs_header_not_fixpoint = 0
+        self.obs_header_example = None
 
 
 def check_specs(st, specs, label, perturb=None, depth=0):
@@ -225,7 +247,8 @@ def check_specs(st, specs, label, perturb=None, depth=0):
         if res["exc1"] is not None and res["exc1"] not in KNOWN_EXC:
             # an exception class the model does not know: never silently accepted
             nfail += 1
-            sig = f"unphase:crash-other:{res['exc1']}"
+            site = crash_site(res["err1"])
+            sig = f"unphase:header-crash:{res['exc1']}" if site == "header" else f"unphase:crash-other:{res['exc1']}:{site}"
             report(st, sig, f"`whatshap unphase` fails with {res['exc1']} ({res['err1'][-200:]!r}) on\n{res['text']}",
                    spec)
             ctx.l2_disagreement("Unphase.unphase_file cur_rule = CLI (exception class unknown to the model)",
@@ -237,12 +260,15 @@ def check_specs(st, specs, label, perturb=None, depth=0):
         else:
             hout, rout = [], []
         if res["p2"] and res["out2"].strip() and (res["exc2"] is None or res["exc2"] in KNOWN_EXC):
-            _, rout2 = uv.parse_vcf(res["p2"], res["out2"], st.interner)
+            hout2, rout2 = uv.parse_vcf(res["p2"], res["out2"], st.interner)
             e2 = res["exc2"]
         else:
-            rout2, e2 = [], "IndexError"      # no second output: l1_idem must fail
+            hout2, rout2, e2 = [], [], "IndexError"      # no second output: l1_idem must fail
         term = (f"(({uv.header_term(hin)}, {uv.recs_term(rin)}, ({uv.header_term(hout)}, {uv.fres_term(rout, res['exc1'])}), "
-                f"{uv.fres_term(rout2, e2)}) : ucase)")
+                f"({uv.header_term(hout2)}, {uv.fres_term(rout2, e2)})) : ucase)")
+        ctx.tally(f"header.phasing_lines.{sum(1 for k, _, _ in hin if k == 0)}")
+        if any(hin[i][0] == 0 and hin[i + 1][0] == 1 and hin[i + 1][1] in (1, 2, 3) for i in range(len(hin) - 1)):
+            ctx.tally("header.phasing_line_directly_before_tag_definition")
         cases.append(term)
         kept.append((res, len(rout)))
     failing, errors = eval_checks("C13u", HEADER, CHECKS, cases, shard=150)
@@ -274,12 +300,22 @@ def check_specs(st, specs, label, perturb=None, depth=0):
     for lab, sig, what in (("clean", "unphase:not-clean", "output still carries a phased genotype or an HP/PS/PQ value"),
                            ("frames", "unphase:frame-changed", "output differs from the input in something that is not "
                             "phase information (fixed columns, other FORMAT fields, GT presence or allele multiset)"),
-                           ("idem", "unphase:not-idempotent", "a second application changes the records again or fails")):
+                           ("idem", "unphase:not-idempotent", "a second application changes the records again or fails"),
+                           ("hclean", "unphase:header-tag-definition-left", "the output header still defines HP, PS or PQ"),
+                           ("hidem", "unphase:header-not-idempotent", "a second application changes the header again "
+                            "(in more than `##phasing` lines)")):
         for i in failing[lab]:
             res, nout = kept[i]
             nfail += 1
             report(st, sig, f"{what}; input:\n{res['text']}\noutput:\n{res['out1']}\nsecond output:\n{res['out2'][-1500:]}",
                    res["spec"])
+    # observation only: with two or more `##phasing` lines the code as it is removes one per application
+    st.obs_header_not_fixpoint += len(failing["obs_hstrict"])
+    if failing["obs_hstrict"] and not st.obs_header_example:
+        r0 = kept[failing["obs_hstrict"][0]][0]
+        st.obs_header_example = {"input_header": [l for l in r0["text"].split("\n") if l.startswith("##phasing")],
+                                 "after_1st": [l for l in r0["out1"].split("\n") if l.startswith("##phasing")],
+                                 "after_2nd": [l for l in r0["out2"].split("\n") if l.startswith("##phasing")]}
     # ---- L2.  The model has the record rule as a switch: cur_rule (the code as it is) or fixed_rule (the repaired
     # rule).  Every case of a run must agree with the same variant; which one is recorded in the evidence.
     st.l2_cases += len(cases)
@@ -317,6 +353,48 @@ def check_specs(st, specs, label, perturb=None, depth=0):
                            f"`whatshap unphase` exits with {res['exc1']}; the record it stopped at does not reproduce it "
                            f"alone; input:\n{res['text']}", spec)
     return nfail
+
+
+def check_malformed(st, specs):
+    """HP / PS / PQ values in records without a header definition: not well-formed; only the exception class of the
+    run is compared with the model (no L1 verdict)."""
+    ctx = st.ctx
+    if not specs:
+        return
+    import pysam
+    pysam.set_verbosity(0)
+    base = st.counter
+    st.counter += len(specs)
+
+    def one(a):
+        i, spec = a
+        text = uv.write_text(spec)
+        p_in = os.path.join(st.wd, f"mal{base + i}.in.vcf")
+        with open(p_in, "w") as f:
+            f.write(text)
+        rc, out, exc, err = unphase_cli(ctx, p_in)
+        return {"spec": spec, "text": text, "p_in": p_in, "exc1": exc, "out1": out, "err1": err[-1500:]}
+    with ThreadPoolExecutor(max_workers=16) as ex:
+        results = list(ex.map(one, enumerate(specs)))
+    cases, kept = [], []
+    for res in results:
+        ctx.count(("malformed", res["text"]), nontrivial=True)
+        ctx.tally("malformed.files")
+        ctx.tally(f"malformed.exit.{res['exc1'] or 'ok'}")
+        if res["exc1"] is not None and res["exc1"] not in KNOWN_EXC:
+            st.l2_cases += 1
+            st.l2_fail_cur.append(res)
+            st.l2_fail_fixed.append(res)
+            continue
+        _, rin = uv.parse_vcf(res["p_in"], res["text"], st.interner)
+        cases.append(f"(({uv.recs_term(rin)}, {uv.ERR[res['exc1']]}) : mcase)")
+        kept.append(res)
+    failing, errors = eval_checks("C13m", HEADER, MCHECKS, cases, shard=150)
+    if errors:
+        raise RuntimeError("coq evaluation failed: " + errors[0][1])
+    st.l2_cases += len(cases)
+    st.l2_fail_cur += [kept[i] for i in failing["cur"]]
+    st.l2_fail_fixed += [kept[i] for i in failing["fixed"]]
 
 
 def settle_variant(st):
@@ -622,11 +700,19 @@ def run(ctx):
         ctx.sample({"input": uv.write_text(s)})
     for off in range(0, len(specs), 1500):
         check_specs(st, specs[off:off + 1500], "rnd", perturb=pert)
+    # 2b. malformed stream (undeclared HP / PS / PQ): exception class only
+    check_malformed(st, [uv.gen_malformed_spec(rng) for _ in range(ctx.n(60, 600))])
     # 3. phase stream
     npay = ctx.n(14, 160)
     pays = [make_phase_payload(rng, gen_phase_scenario(rng)) for _ in range(npay)]
     check_phase(st, pays, perturb=pert if os.environ.get("WHVERIF_C13_PERTURB") == "order" else None)
     settle_variant(st)
+    ctx.extra["observation_header_with_several_phasing_lines"] = {
+        "files_where_second_application_changes_the_header_in_phasing_lines_only": st.obs_header_not_fixpoint,
+        "example": st.obs_header_example,
+        "note": "unphase_header removes only the first ##phasing line (break); modelled faithfully "
+                "(C13_header_phasing_lines, C13_header_idempotent_refuted); not counted as a violation: the property "
+                "text speaks about genotypes, HP/PS/PQ values and records"}
     ctx.extra["crash_signature_counts"] = st.crash_counts
     ctx.extra["violations_by_signature"] = st.reported
 
